@@ -108,6 +108,43 @@ func (ns *vfNS) seedAll(tg *vfdoubles.Target) {
 	// DB 2, and DB 1 or 3 depending on the root offset.
 	tg.Seed(2, "set", "app:other", "x")
 	tg.Seed(1+2*int(ns.rootOff&1), "set", "app:more", "y")
+	// ANOTHER bidirectional namespace on the same target (another source, another checkpoint name - ours is a proper
+	// prefix of it), complete and AHEAD of ours: root, frontier snapshot, journal + index, latest record under the same
+	// run id. Nothing of it may be read, saved over or deleted by a start of our namespace.
+	other := vfC14Cp + "ff"
+	rid := ns.rootRid
+	if rid == "" {
+		rid = "run-other"
+	}
+	tag := vfC14Tag()
+	tg.Seed(0, "hset", other, rid+"_runid", rid, rid+"_version", config.Version, rid+"_offset", strconv.FormatInt(ns.rootOff/2+4000, 10), rid+"_mtime", "1700000000000000001", "bisync_mode", "parallel")
+	ofr := &checkpoint.BisyncFrontierSnapshot{Version: config.Version, RunID: rid, UnitSeq: 40, Offset: 7000, MTime: 3}
+	tg.Seed(0, vfArgs(checkpoint.BisyncFrontierKey(other), ofr.HashArgs())...)
+	for _, q := range []int64{1, 41, 42} {
+		k := checkpoint.BisyncCommitRecordKey(other, tag, q)
+		rec := &checkpoint.BisyncCommitRecord{Key: k, Version: config.Version, RunID: rid, SyncerID: "vf", UnitSeq: q, StartOffset: 7000, EndOffset: 7000 + q, MTime: 9, Digest: "d"}
+		tg.Seed(0, vfArgs(k, rec.HashArgs())...)
+		tg.Seed(0, "zadd", checkpoint.BisyncCommitIndexKey(other, tag), strconv.FormatInt(q, 10), k)
+	}
+	ol := &checkpoint.BisyncCommitRecord{Key: checkpoint.BisyncLatestCheckpointKey(other, tag), Version: config.Version, RunID: rid, SyncerID: "vf", UnitSeq: 77, StartOffset: 7000, EndOffset: 7777, MTime: 9, Digest: "d"}
+	tg.Seed(0, vfArgs(ol.Key, ol.HashArgs())...)
+}
+
+// vfC14OtherIntact: the other namespace is exactly as seeded (4 hashes of records + frontier + root + index of 3 members)
+func vfC14OtherIntact(tg *vfdoubles.Target) bool {
+	other := vfC14Cp + "ff"
+	tag := vfC14Tag()
+	for _, k := range []string{other, checkpoint.BisyncFrontierKey(other), checkpoint.BisyncLatestCheckpointKey(other, tag),
+		checkpoint.BisyncCommitRecordKey(other, tag, 1), checkpoint.BisyncCommitRecordKey(other, tag, 41), checkpoint.BisyncCommitRecordKey(other, tag, 42)} {
+		if v := tg.Get(0, k); v == nil || v.Kind != "hash" {
+			return false
+		}
+	}
+	if v := tg.Get(0, checkpoint.BisyncFrontierKey(other)); string(v.Hash["unit_seq"]) != "40" {
+		return false
+	}
+	v := tg.Get(0, checkpoint.BisyncCommitIndexKey(other, tag))
+	return v != nil && len(v.ZSet) == 3
 }
 
 func (ns *vfNS) encode() string {
@@ -243,10 +280,13 @@ func vfC14Output(tg *vfdoubles.Target, mode string) *RedisOutput {
 		rm = config.ReplayModePipeline
 	}
 	ro := NewRedisOutput(RedisOutputConfig{InputName: "vf", CheckpointName: vfC14Cp, BisyncEnabled: true,
-		ReplayMode: rm, Redis: checkpoint.VfRedisCfg(), EnableResumeFromBreakPoint: true})
+		ReplayMode: rm, Redis: checkpoint.VfRedisCfg(), EnableResumeFromBreakPoint: vfC14Resume})
 	ro.newRedisConn = func(ctx context.Context) (client.Redis, error) { return checkpoint.VfConn(tg), nil }
 	return ro
 }
+
+// resumeFromBreakPoint: drawn per generated case (the bidirectional start does not read it: same answers expected)
+var vfC14Resume = true
 
 // vfC14Start runs bisyncStartPoint of a fresh process against tg.
 func vfC14Start(tg *vfdoubles.Target, mode string, ids []string) (string, int64, bool) {
@@ -349,6 +389,11 @@ func vfC14StartCase(t *testing.T, s *vfutil.Session, tagp *int, mode string, ids
 	start, off, isPoint := vfC14Start(tg, mode, ids)
 	tg.CloseAll()
 	log := tg.LogCopy()
+	if !vfC14OtherIntact(tg) {
+		s.Violate("start-touches-another-namespace", "a start of our namespace changed the recovery keys of ANOTHER checkpoint name on the same target (start answered "+start+")",
+			map[string]interface{}{"op": fmt.Sprintf("c14s %d %s %s %s %s", tag, mode, vfutil.HexS(config.Version), checkpoint.VfHexList(ids), ns.encode())})
+	}
+	s.Count("state_other_namespace_beside_ours")
 	var ws []int
 	var lines []string
 	for i := seedLen; i < len(log); i++ {
@@ -521,11 +566,15 @@ func vfC14StartCase(t *testing.T, s *vfutil.Session, tagp *int, mode string, ids
 	}
 }
 
-func vfC14GenNS(r *vfutil.Rand, ids []string, mode string) *vfNS {
+// vfC14GenNS: offsets around 1000 (also used by the C17 harness: unchanged draws)
+func vfC14GenNS(r *vfutil.Rand, ids []string, mode string) *vfNS { return vfC14GenNSB(r, ids, mode, 1000, false) }
+
+// vfC14GenNSB: unit q ends at B + 37q; extremes = also draw a root at offset 0
+func vfC14GenNSB(r *vfutil.Rand, ids []string, mode string, B int64, extremes bool) *vfNS {
 	rid := ids[0]
 	ns := &vfNS{}
 	base := int64(r.Range(0, 8))
-	e := func(q int64) int64 { return 1000 + 37*q }
+	e := func(q int64) int64 { return B + 37*q }
 	if r.Chance(5, 6) {
 		ns.front = &checkpoint.BisyncFrontierSnapshot{Version: config.Version, RunID: rid, UnitSeq: base, Offset: e(base), MTime: int64(r.Range(1, 1000))}
 		if r.Chance(1, 12) {
@@ -586,6 +635,12 @@ func vfC14GenNS(r *vfutil.Rand, ids []string, mode string) *vfNS {
 			ns.rootOff = e(base) + int64(r.Range(0, 40))
 		default:
 			ns.rootOff = int64(r.Range(0, 1000))
+			if B > 1000 {
+				ns.rootOff += B - 1000
+			}
+		}
+		if extremes && r.Chance(1, 25) {
+			ns.rootOff = 0
 		}
 		if r.Chance(1, 4) { // boundary of the root override: root = selected offset -1 / 0 / +1
 			ns.rootOff = top + int64(r.Range(-1, 1))
@@ -930,6 +985,17 @@ func vfC14ClusterCase(s *vfutil.Session, c *vfCCase, src string) {
 	tg.CloseAll()
 	log := tg.LogCopy()
 	s.Count("cluster_start_" + c.mode + "_" + src)
+	s.Count("cfg_redis_type_cluster")
+	{
+		seen := map[int64]bool{}
+		for _, x := range c.recs {
+			if seen[x[0]] {
+				s.Count("state_duplicate_seq_across_slot_tags")
+				break
+			}
+			seen[x[0]] = true
+		}
+	}
 	rep := func(extra map[string]interface{}) map[string]interface{} {
 		m := map[string]interface{}{"op": c.op(), "start": txt}
 		for k, v := range extra {
@@ -1015,6 +1081,10 @@ func vfC14GenCluster(r *vfutil.Rand) *vfCCase {
 			}
 			c.recs = append(c.recs, [2]int64{q, int64(r.Intn(len(c.slots)))})
 			top = q
+		}
+		if len(c.recs) > 0 && r.Chance(1, 3) { // the same sequence number under ANOTHER slot tag as well (a duplicate across tags)
+			d := c.recs[r.Intn(len(c.recs))]
+			c.recs = append(c.recs, [2]int64{d[0], (d[1] + 1) % int64(len(c.slots))})
 		}
 		if base > 0 && r.Chance(1, 3) { // a leftover the snapshot covers
 			c.recs = append(c.recs, [2]int64{int64(r.Range(1, int(base))), int64(r.Intn(len(c.slots)))})
@@ -1119,8 +1189,20 @@ func TestVerifC14(t *testing.T) {
 		rr := r.Fork()
 		ids := []string{"run-" + strconv.Itoa(rr.Intn(50)), "prev-" + strconv.Itoa(rr.Intn(50))}
 		mode := vfutil.Pick(rr, []string{"F", "F", "P", "L"})
-		ns := vfC14GenNS(rr, ids, mode)
+		// offsets: mostly around 1000; forced: from 0, and near the top of int64
+		ns := vfC14GenNSB(rr, ids, mode, vfutil.Pick(rr, []int64{1000, 1000, 1000, 1000, 0, 9223372036854775807 - 5000}), true)
+		vfC14Resume = !rr.Chance(1, 4)
+		s.Count(fmt.Sprintf("cfg_resumeFromBreakPoint_%v", vfC14Resume))
+		s.Count("cfg_replay_mode_" + map[string]string{"L": "sync", "P": "pipeline", "F": "parallel"}[mode])
+		s.Count("cfg_redis_type_standalone")
+		switch {
+		case ns.rootRid != "" && ns.rootOff == 0:
+			s.Count("offset_root_0")
+		case ns.rootOff > 1<<62:
+			s.Count("offset_near_max_int64")
+		}
 		vfC14StartCase(t, s, &tag, mode, ids, ns, 0, false, rr.Range(0, 3), rr, "gen")
+		vfC14Resume = true
 	}
 	n = vfutil.Scale(300, 6000)
 	for i := 0; i < n; i++ {
